@@ -249,6 +249,10 @@ class LP:
             out.append(f"{c}" + ("*" + mon if mon else ""))
         return " + ".join(out) + (f" ... ({len(items)} terms)" if len(items) > 8 else "")
 
+    def __bool__(s):
+        """truthiness is the exact zero test (no silent truthy default)"""
+        return not iszero(s)
+
     def __abs__(s):
         from . import oracle
 
